@@ -540,7 +540,7 @@ fn main() {
 
     // ---- valid files from generated databases, then damage ---------------------------------------
     let ndb = args.n(5, 120);
-    let budget_trunc = args.n(500, 1_000_000);
+    let budget_trunc = args.n(500, 300_000);
     for di in 0..ndb {
         let mut r = rng.fork();
         let mut g = gen_db(&mut r, 5, &[]);
@@ -591,7 +591,7 @@ fn main() {
                             }
                         }
                     }
-                    let per_file = args.n(120, 100_000) as usize;
+                    let per_file = args.n(120, 30_000) as usize;
                     if targets.len() * 5 > per_file {
                         r.shuffle(&mut targets);
                         targets.truncate(per_file / 5);
